@@ -118,6 +118,7 @@ def _assigned_callees(fn):
 
 
 def _with_order_of(fn):
+    """roles of the one `with` over the deadline context and the wrapper in fn; None when fn has none"""
     env = _assign_values(fn)
 
     def items_roles(w):
@@ -141,36 +142,93 @@ def _with_order_of(fn):
         if not any(n is not m and any(x is n for x in ast.walk(m)) and any(r for r in rs)
                    for rs, _, m in chains):
             outer.append((roles, body))
+    if not outer:
+        return None
     if len(outer) != 1:
-        raise Unsupported('request_handler: expected one `with` over the deadline context and the wrapper, '
-                          'found %d' % len(outer))
+        raise Unsupported('%s: %d `with` statements over the deadline context / the wrapper'
+                          % (fn.name, len(outer)))
     roles, body = outer[0]
     if sorted(r or '?' for r in roles) != ['deadline', 'wrapper']:
-        raise Unsupported('request_handler: roles of the with items: %r' % (roles,))
+        raise Unsupported('%s: roles of the with items: %r' % (fn.name, roles))
     if not _has_await(body):
-        raise Unsupported('request_handler: nothing is awaited inside the `with`')
+        raise Unsupported('%s: nothing is awaited inside the `with`' % fn.name)
     return roles
+
+
+def _module_functions(tree):
+    return {n.name: n for n in tree.body if isinstance(n, (ast.FunctionDef, ast.AsyncFunctionDef))}
+
+
+def _reachable(tree, root):
+    """module-level functions reachable from `root` through direct calls by name (the request may be served
+    by a chain of private coroutines: request_handler -> _serve_request -> _call_method ...)"""
+    funcs = _module_functions(tree)
+    if root not in funcs:
+        raise Unsupported('function ' + root)
+    seen, todo = [], [root]
+    while todo:
+        f = todo.pop(0)
+        if f in seen:
+            continue
+        seen.append(f)
+        for n in ast.walk(funcs[f]):
+            if isinstance(n, ast.Call) and isinstance(n.func, ast.Name) and n.func.id in funcs:
+                todo.append(n.func.id)
+    return seen
 
 
 def with_order(repo):
     tree = parse(repo, 'grpclib/server.py')
-    raw = func_node(tree, 'request_handler')
-    # 1. as written; 2. with the private helpers whose result is bound to a name seen through (the others
-    # -- _abort and the like -- cannot carry a context manager and stay calls); 3. everything inlined
-    attempts = [lambda: raw,
-                lambda: pynorm.canonical_function(tree, None, 'request_handler', temps=False,
-                                                  keep=lambda n: n not in _assigned_callees(raw)),
-                lambda: pynorm.canonical_function(tree, None, 'request_handler', temps=False)]
-    errors = []
-    for get in attempts:
-        try:
-            return _with_order_of(get())
-        except (Unsupported, pynorm.Unsupported) as e:
-            errors.append(str(e))
-    raise Unsupported('request_handler: ' + ' | '.join(errors))
+    funcs = _module_functions(tree)
+    found, errors = [], []
+    for name in _reachable(tree, 'request_handler'):
+        raw = funcs[name]
+        if not any(isinstance(n, ast.With) for n in ast.walk(raw)):
+            continue        # the `with` is written in exactly one function; callers only reach it
+        # 1. as written; 2. with the private helpers whose result is bound to a name seen through (the others
+        # -- _abort and the like -- cannot carry a context manager and stay calls); 3. everything inlined
+        attempts = [lambda: raw,
+                    lambda: pynorm.canonical_function(tree, None, name, temps=False,
+                                                      keep=lambda n: n not in _assigned_callees(raw)),
+                    lambda: pynorm.canonical_function(tree, None, name, temps=False)]
+        errs, roles = [], None
+        for get in attempts:
+            try:
+                roles = _with_order_of(get())
+            except (Unsupported, pynorm.Unsupported) as e:
+                errs.append(str(e))
+                continue
+            if roles is not None:
+                break
+        if roles is not None:
+            found.append((name, roles))
+        elif any('roles of the with items' in e or '`with` statements over' in e for e in errs):
+            errors.append('%s: %s' % (name, ' | '.join(errs)))
+    if errors:
+        raise Unsupported('request path: ' + ' ; '.join(errors))
+    if len(found) != 1:
+        raise Unsupported('request path: expected exactly one `with` over the deadline context and the wrapper '
+                          'in the functions reachable from request_handler, found %r' % (found,))
+    return found[0][1]
 
 
 # ---- DeadlineWrapper.start: the path taken when nothing remains -----------------------------------
+
+def _replace(tree, old, new):
+    """copy of `tree` in which the node object `old` is replaced by `new`"""
+    import copy
+    if tree is old:
+        return new
+    if not isinstance(tree, ast.AST):
+        return tree
+    t = copy.copy(tree)
+    for field, v in ast.iter_fields(tree):
+        if isinstance(v, list):
+            setattr(t, field, [_replace(x, old, new) for x in v])
+        elif isinstance(v, ast.AST):
+            setattr(t, field, _replace(v, old, new))
+    return t
+
 
 def _is_timeout_ctor(e):
     if not isinstance(e, ast.Call):
@@ -203,40 +261,88 @@ def _truthy_test(test, names):
     return False
 
 
-def _expired_actions(stmts, cls, errs, depth=0):
-    """the cancel / raise sequence of a straight-line statement list; private helpers of the class
-    called without arguments are seen through"""
+class _Ctx:
+    def __init__(self, classes):
+        self.classes = classes            # the class and its bases defined in the same module
+
+    def helper(self, name):
+        for c in self.classes:
+            for m in c.body:
+                if isinstance(m, ast.FunctionDef) and m.name == name:
+                    return m
+        return None
+
+
+def _eval(e, ctx, errs, depth):
+    """(actions performed while evaluating e, e is a TimeoutError instance); private argument-less methods
+    of the class are seen through (their effects happen, their `return` value is the value)"""
+    if _is_timeout_ctor(e):
+        return [], True
+    if isinstance(e, ast.Name):
+        return [], e.id in errs
+    if isinstance(e, ast.NamedExpr) and isinstance(e.target, ast.Name):
+        acts, is_err = _eval(e.value, ctx, errs, depth)
+        if is_err:
+            errs.add(e.target.id)
+        return acts, is_err
+    if isinstance(e, ast.Call) and isinstance(e.func, ast.Attribute) and isinstance(e.func.value, ast.Name) \
+            and e.func.value.id == 'self' and e.func.attr.startswith('_') and not e.args and not e.keywords \
+            and depth < 4:
+        h = ctx.helper(e.func.attr)
+        if h is not None:
+            local = set()
+            acts, ret = _run(h.body, ctx, local, depth + 1)
+            return acts, ret == 'error'
+    raise Unsupported('DeadlineWrapper.start: expired path evaluates ' + ast.unparse(e))
+
+
+def _run(stmts, ctx, errs, depth=0):
+    """straight-line execution: (cancel / raise actions, how it ends: 'raise' | 'error' (returns a
+    TimeoutError) | 'value' (returns something else / falls off the end))"""
     acts = []
     for s in stmts:
         if isinstance(s, ast.Expr) and isinstance(s.value, ast.Constant):
             continue                                                  # docstring
+        if isinstance(s, ast.Pass):
+            continue
         if isinstance(s, (ast.Assign, ast.AnnAssign)) and s.value is not None:
             tgts = s.targets if isinstance(s, ast.Assign) else [s.target]
-            if _is_timeout_ctor(s.value) and all(isinstance(t, ast.Name) for t in tgts):
-                errs.update(t.id for t in tgts)
-                continue
+            if all(isinstance(t, ast.Name) for t in tgts):
+                a, is_err = _eval(s.value, ctx, errs, depth)
+                acts += a
+                if is_err:
+                    errs.update(t.id for t in tgts)
+                    continue
             raise Unsupported('DeadlineWrapper.start: expired path assigns ' + ast.unparse(s))
         if isinstance(s, ast.Expr) and isinstance(s.value, ast.Call):
             c = s.value
             f = c.func
             if isinstance(f, ast.Attribute) and isinstance(f.value, ast.Name) and f.value.id == 'self':
-                if f.attr == 'cancel' and len(c.args) == 1 and not c.keywords and \
-                        (_is_timeout_ctor(c.args[0]) or
-                         (isinstance(c.args[0], ast.Name) and c.args[0].id in errs)):
-                    acts.append('SA_cancel')
-                    continue
-                if f.attr.startswith('_') and not c.args and not c.keywords and depth < 3:
-                    helper = [m for m in cls.body if isinstance(m, ast.FunctionDef) and m.name == f.attr]
-                    if len(helper) == 1:
-                        acts += _expired_actions(helper[0].body, cls, errs, depth + 1)
+                if f.attr == 'cancel' and len(c.args) == 1 and not c.keywords:
+                    a, is_err = _eval(c.args[0], ctx, errs, depth)
+                    if is_err:
+                        acts += a + ['SA_cancel']
                         continue
+                elif f.attr.startswith('_') and not c.args and not c.keywords and ctx.helper(f.attr) is not None \
+                        and depth < 4:
+                    a, end = _run(ctx.helper(f.attr).body, ctx, set(), depth + 1)
+                    acts += a
+                    if end == 'raise':
+                        return acts, 'raise'
+                    continue
             raise Unsupported('DeadlineWrapper.start: expired path calls ' + ast.unparse(s))
-        if isinstance(s, ast.Raise) and s.exc is not None and s.cause is None and \
-                (_is_timeout_ctor(s.exc) or (isinstance(s.exc, ast.Name) and s.exc.id in errs)):
-            acts.append('SA_raise')
-            return acts                                               # nothing runs after the raise
+        if isinstance(s, ast.Raise) and s.exc is not None and s.cause is None:
+            a, is_err = _eval(s.exc, ctx, errs, depth)
+            if is_err:
+                return acts + a + ['SA_raise'], 'raise'               # nothing runs after the raise
+            raise Unsupported('DeadlineWrapper.start: expired path raises ' + ast.unparse(s))
+        if isinstance(s, ast.Return):
+            if s.value is None:
+                return acts, 'value'
+            a, is_err = _eval(s.value, ctx, errs, depth)
+            return acts + a, 'error' if is_err else 'value'
         raise Unsupported('DeadlineWrapper.start: expired path statement ' + ast.unparse(s))
-    return acts
+    return acts, 'value'
 
 
 def start_expired(repo):
@@ -255,15 +361,29 @@ def start_expired(repo):
             tgts = s.targets if isinstance(s, ast.Assign) else [s.target]
             rem.update(t.id for t in tgts if isinstance(t, ast.Name))
             continue
-        if isinstance(s, ast.If) and rem:
+        if isinstance(s, ast.If):
+            # `if not (x := deadline.time_remaining()):` binds in the test
+            test = s.test
+            for w in [n for n in ast.walk(test) if isinstance(n, ast.NamedExpr)]:
+                v = w.value
+                if isinstance(w.target, ast.Name) and isinstance(v, ast.Call) and \
+                        isinstance(v.func, ast.Attribute) and v.func.attr == 'time_remaining' and \
+                        isinstance(v.func.value, ast.Name) and v.func.value.id in params:
+                    rem.add(w.target.id)
+                    test = _replace(test, w, ast.Name(id=w.target.id, ctx=ast.Load()))
+            if not rem:
+                raise Unsupported('DeadlineWrapper.start: test before the remaining time is known')
+            s = ast.If(test=test, body=s.body, orelse=s.orelse)
             if _falsy_test(s.test, rem):
                 branch = s.body
             elif _truthy_test(s.test, rem):
                 branch = s.orelse
             else:
                 raise Unsupported('DeadlineWrapper.start: test ' + ast.unparse(s.test))
-            acts = _expired_actions(branch, cls, set())
-            if not acts or acts[-1] != 'SA_raise':
+            bases = [b.id for b in cls.bases if isinstance(b, ast.Name)]
+            classes = [cls] + [c for c in tree.body if isinstance(c, ast.ClassDef) and c.name in bases]
+            acts, end = _run(branch, _Ctx(classes), set())
+            if end != 'raise':
                 raise Unsupported('DeadlineWrapper.start: the expired path does not end in a raise')
             return acts
         raise Unsupported('DeadlineWrapper.start: statement before the expired test: ' + ast.unparse(s)[:80])
